@@ -56,7 +56,16 @@ type RunResult struct {
 	MaxForkDepth int
 	sampleLimit  int
 	Notes        map[string]int
-	SampleSMT    string
+	Scripts      []ObligationScript
+	ScriptLimit  int
+}
+
+// ObligationScript is a standalone SMT-LIB rendering of one discharged
+// obligation, for re-asking other solvers.
+type ObligationScript struct {
+	Msg    string
+	Expect string
+	SMT    string
 }
 
 type PathSample struct {
@@ -85,6 +94,10 @@ type Exec struct {
 	MaxSteps  int
 	MaxPaths  int
 	Fixed     map[string]interface{} // concrete values for named nondet inputs (concrete mode)
+	Seed      int
+	Progress  int
+	ForkTrace map[string]int
+	forkSite  string
 	Debug     bool
 	globals   map[*ssa.Global]*Ptr
 	cutsets   map[*ssa.Function]*[128]bool
@@ -364,7 +377,7 @@ func fnDisplay(fn *ssa.Function) string {
 
 func NewRunResult() *RunResult {
 	return &RunResult{Ends: map[string]int{}, Covers: map[string]int{}, CoverInputs: map[string]map[string]interface{}{},
-		Funcs: map[string]bool{}, Intrinsics: map[string]bool{}, sampleLimit: 6, Notes: map[string]int{}}
+		Funcs: map[string]bool{}, Intrinsics: map[string]bool{}, sampleLimit: 6, Notes: map[string]int{}, ScriptLimit: 2}
 }
 
 // InitState builds the initial state: package initialisers of go-restful run.
@@ -445,6 +458,7 @@ func (e *Exec) Run(fn *ssa.Function, args []Value) *RunResult {
 	e.Res = NewRunResult()
 	st := e.init.Clone()
 	st.setModel(sym.Model{})
+	e.S.Reset()
 	base := e.S.Level()
 	e.S.Push()
 	func() {
@@ -497,6 +511,9 @@ func (e *Exec) pathEnd(st *State, end string) {
 	r := e.Res
 	r.Paths++
 	r.Ends[end]++
+	if e.Progress > 0 && r.Paths%e.Progress == 0 {
+		fmt.Fprintf(os.Stderr, "progress: paths=%d queries=%d solve=%v terms=%d pc=%d\n", r.Paths, e.S.Stats.Queries, e.S.Stats.SolveTime, len(e.C.Terms), len(st.PC))
+	}
 	if end == EndLimit {
 		r.Inconclusive = append(r.Inconclusive, "step limit reached (unwinding bound)")
 	}
@@ -505,7 +522,7 @@ func (e *Exec) pathEnd(st *State, end string) {
 		if st.panicking != nil {
 			desc = "uncaught panic: " + st.panicking.Desc
 		}
-		r.Violations = append(r.Violations, Violation{Msg: desc, Inputs: e.InputsUnder(st, st.ev), PathTag: strings.Join(st.Tags, ",")})
+		r.Violations = append(r.Violations, Violation{Msg: desc, Inputs: e.InputsUnder(st, e.pathModel(st)), PathTag: strings.Join(st.Tags, ",")})
 	}
 	if end == EndInfeasible {
 		return
@@ -513,16 +530,36 @@ func (e *Exec) pathEnd(st *State, end string) {
 	for _, c := range st.Covers {
 		r.Covers[c]++
 		if _, ok := r.CoverInputs[c]; !ok {
-			r.CoverInputs[c] = e.InputsUnder(st, st.ev)
+			r.CoverInputs[c] = e.InputsUnder(st, e.pathModel(st))
 		}
 	}
 	if len(r.Samples) < r.sampleLimit || (end == EndReturn && r.Paths%17 == 0 && len(r.Samples) < 4*r.sampleLimit) {
+		ev := e.pathModel(st)
 		obs := map[string]interface{}{}
 		for _, o := range st.Obs {
-			obs[o.Key] = e.Concretize(st, o.Val, st.ev)
+			obs[o.Key] = e.Concretize(st, o.Val, ev)
 		}
-		r.Samples = append(r.Samples, PathSample{Inputs: e.InputsUnder(st, st.ev), Obs: obs, End: end, Tags: append([]string(nil), st.Tags...)})
+		r.Samples = append(r.Samples, PathSample{Inputs: e.InputsUnder(st, ev), Obs: obs, End: end, Tags: append([]string(nil), st.Tags...)})
 	}
+}
+
+// pathModel asks the solver for a model of the path condition (cached on the
+// state). Models are only fetched where a concrete witness is needed: z3's
+// model construction costs ~60 ms here, a feasibility query ~3 ms.
+func (e *Exec) pathModel(st *State) *sym.Evaluator {
+	if st.ev != nil && st.evAt == len(st.PC) {
+		return st.ev
+	}
+	if e.S.Check() == smt.Sat {
+		if m, err := e.S.Model(); err == nil {
+			st.setModel(m)
+			st.evAt = len(st.PC)
+			return st.ev
+		}
+	}
+	e.Res.Inconclusive = append(e.Res.Inconclusive, "no model for a feasible path")
+	st.setModel(sym.Model{})
+	return st.ev
 }
 
 // InputsUnder renders the nondeterministic inputs of the path under a model.
@@ -581,17 +618,8 @@ func (e *Exec) assume(st *State, t *sym.Term) bool {
 	}
 	st.addPC(t)
 	e.S.Assert(t)
-	if st.ev.Eval(t) == 1 {
-		return true
-	}
 	switch e.S.Check() {
 	case smt.Sat:
-		m, err := e.S.Model()
-		if err != nil {
-			e.Res.Inconclusive = append(e.Res.Inconclusive, "model: "+err.Error())
-			return false
-		}
-		st.setModel(m)
 		return true
 	case smt.Unknown:
 		e.Res.Inconclusive = append(e.Res.Inconclusive, "solver unknown on assume")
@@ -600,79 +628,111 @@ func (e *Exec) assume(st *State, t *sym.Term) bool {
 	return false
 }
 
-// forkAlts explores every feasible alternative except one, which the caller
-// continues with on st. Returns false if no alternative is feasible.
-func (e *Exec) forkAlts(st *State, alts []Alt, depth int) bool {
-	cur := -1
-	for i, a := range alts {
-		if st.ev.Eval(a.Cond) == 1 {
-			cur = i
-			break
-		}
+// assumeTrusted adds a constraint that cannot make the path infeasible
+// (bounds on fresh variables) without asking the solver.
+func (e *Exec) assumeTrusted(st *State, t *sym.Term) {
+	if t.IsTrue() {
+		return
 	}
+	st.addPC(t)
+	e.S.Assert(t)
+}
+
+// forkAlts explores every feasible alternative; all but the last feasible one
+// on clones, the last one on st itself (the caller continues with st).
+// Returns false if no alternative is feasible. exhaustive: the conditions
+// cover every case, so the last candidate needs no query when all others are
+// infeasible.
+func (e *Exec) forkAlts(st *State, alts []Alt, depth int) bool {
+	return e.forkAltsX(st, alts, true)
+}
+
+func (e *Exec) forkAltsX(st *State, alts []Alt, exhaustive bool) bool {
+	if e.ForkTrace != nil && len(st.frames) > 0 {
+		fr := st.top()
+		pos := ""
+		if fr.idx < len(fr.block.Instrs) {
+			pos = e.Prog.Fset.Position(fr.block.Instrs[fr.idx].Pos()).String()
+		}
+		e.ForkTrace[fr.fn.String()+" "+pos]++
+		e.forkSite = fr.fn.String() + " " + pos
+	}
+	if e.S.SlowMs > 0 && len(st.frames) > 0 {
+		e.S.Tag = "fork in " + st.top().fn.Name()
+	}
+	var feas []int
+	// candidates not ruled out syntactically
+	var cand []int
 	for i, a := range alts {
-		if i == cur || a.Cond.IsFalse() {
+		if a.Cond.IsFalse() {
 			continue
 		}
 		if v, ok := st.factOf(a.Cond); ok && !v {
 			continue
 		}
-		e.S.Push()
-		e.S.Assert(a.Cond)
-		r := e.S.Check()
-		if r == smt.Sat {
-			m, err := e.S.Model()
-			if err != nil {
-				e.Res.Inconclusive = append(e.Res.Inconclusive, "model: "+err.Error())
-			} else {
-				if cur < 0 {
-					// no current alternative: continue on st with this one
-					// (cannot keep the push; re-assert below)
-					e.S.Pop()
-					st.addPC(a.Cond)
-					e.S.Assert(a.Cond)
-					st.setModel(m)
-					cur = i
-					continue
-				}
-				st2 := st.Clone()
-				st2.addPC(a.Cond)
-				st2.setModel(m)
-				st2.Forks++
-				if a.Tag != "" {
-					st2.Tags = append(st2.Tags, a.Tag)
-				}
-				func() {
-					defer func() {
-						if r := recover(); r != nil {
-							if u, ok := r.(unsupported); ok {
-								e.Res.Inconclusive = append(e.Res.Inconclusive, "unsupported: "+u.msg)
-								e.pathEnd(st2, EndUnsupported)
-								return
-							}
-							panic(r)
-						}
-					}()
-					a.Apply(st2)
-					if e.Res.Paths < e.MaxPaths {
-						e.explore(st2, depth+1)
-					} else {
-						e.Res.Inconclusive = append(e.Res.Inconclusive, "path limit reached")
-					}
-				}()
-			}
-		} else if r == smt.Unknown {
-			e.Res.Inconclusive = append(e.Res.Inconclusive, "solver unknown on branch feasibility")
-		}
-		e.S.Pop()
+		cand = append(cand, i)
 	}
-	if cur < 0 {
+	for k, i := range cand {
+		a := alts[i]
+		if v, ok := st.factOf(a.Cond); ok && v {
+			feas = append(feas, i)
+			continue
+		}
+		if exhaustive && k == len(cand)-1 && len(feas) == 0 {
+			// the path is feasible and every other case is not
+			feas = append(feas, i)
+			continue
+		}
+		r := e.S.CheckWith(a.Cond)
+		switch r {
+		case smt.Sat:
+			feas = append(feas, i)
+		case smt.Unknown:
+			e.Res.Inconclusive = append(e.Res.Inconclusive, "solver unknown on branch feasibility")
+		default:
+			if e.ForkTrace != nil {
+				e.ForkTrace["UNSAT "+e.forkSite]++
+			}
+		}
+	}
+	if len(feas) == 0 {
 		return false
 	}
-	a := alts[cur]
+	for _, i := range feas[:len(feas)-1] {
+		a := alts[i]
+		st2 := st.Clone()
+		st2.Forks++
+		if a.Tag != "" {
+			st2.Tags = append(st2.Tags, a.Tag)
+		}
+		e.S.Push()
+		if !a.Cond.IsTrue() {
+			st2.addPC(a.Cond)
+			e.S.Assert(a.Cond)
+		}
+		func() {
+			defer func() {
+				if r := recover(); r != nil {
+					if u, ok := r.(unsupported); ok {
+						e.Res.Inconclusive = append(e.Res.Inconclusive, "unsupported: "+u.msg)
+						e.pathEnd(st2, EndUnsupported)
+						return
+					}
+					panic(r)
+				}
+			}()
+			a.Apply(st2)
+			if e.Res.Paths < e.MaxPaths {
+				e.explore(st2, st2.Forks)
+			} else {
+				e.Res.Inconclusive = append(e.Res.Inconclusive, "path limit reached")
+			}
+		}()
+		e.S.Pop()
+	}
+	a := alts[feas[len(feas)-1]]
 	if !a.Cond.IsTrue() {
 		st.addPC(a.Cond)
-		// cur may have been asserted above already (cur<0 case); asserting twice is harmless
 		e.S.Assert(a.Cond)
 	}
 	if a.Tag != "" {
@@ -1001,7 +1061,7 @@ func (e *Exec) monitorStore(st *State, p *Ptr, fr *Frame, in ssa.Instruction) {
 	}
 	pos := e.Prog.Fset.Position(in.Pos())
 	msg := fmt.Sprintf("frame[%s]: store to pre-existing object (%s) at %s in %s", fm.label, o.Site, pos, fr.fn)
-	e.Res.Violations = append(e.Res.Violations, Violation{Msg: msg, Inputs: e.InputsUnder(st, st.ev), PathTag: strings.Join(st.Tags, ",")})
+	e.Res.Violations = append(e.Res.Violations, Violation{Msg: msg, Inputs: e.InputsUnder(st, e.pathModel(st)), PathTag: strings.Join(st.Tags, ",")})
 }
 
 // evalValue computes value-producing instructions. handled=true means the
@@ -1521,6 +1581,25 @@ func (e *Exec) index(st *State, fr *Frame, x *ssa.Index) (Value, bool) {
 	base := e.get(st, fr, x.X)
 	idx := e.get(st, fr, x.Index).(*sym.Term)
 	switch b := base.(type) {
+	case *Str:
+		if idx.W < 64 {
+			_, sg, _ := e.intWidth(x.Index.Type())
+			if sg {
+				idx = e.C.Sext(idx, 64)
+			} else {
+				idx = e.C.Zext(idx, 64)
+			}
+		}
+		inRange := e.C.And(e.C.Sle(e.i64(0), idx), e.C.Slt(idx, e.lenOf(b)))
+		res := e.atT(b, idx)
+		if e.boundsFork(st, fr, inRange, "index out of range", func(s2 *State) {
+			f := s2.top()
+			e.set(f, x, res)
+			f.idx++
+		}) {
+			return nil, true
+		}
+		return res, false
 	case *ArrayV:
 		iv, ok := idx.ConstVal()
 		if !ok {
